@@ -1014,6 +1014,27 @@ def scale_overflow_lines(rng, fmts):
     return lines
 
 
+def scale_extreme_k_lines(rng, fmts):
+    """scale by amounts at the limits of the i64 argument: the sum `exp + k` leaves the machine range"""
+    I64MAX, I64MIN = 2 ** 63 - 1, -2 ** 63
+    lines = []
+    for (E, P) in fmts:
+        for m in MODES:
+            s = Sem(E, P, m)
+            vals = [ftok("N", 0, s.emin, 1), ftok("N", 1, s.emin, 2 ** (P - 1) - 1), ftok("N", 0, 0, 2 ** (P - 1)), ftok("N", 1, 1, 2 ** (P - 1) + 1),
+                    ftok("N", 0, s.emax, 2 ** P - 1), ftok("N", 1, s.emax, 2 ** (P - 1)), ftok("N", 0, -1, 2 ** P - 1), ftok("N", 0, s.emin, 2 ** (P - 1))]
+            for a in vals:
+                ex = int(a.split(":")[1])
+                if not (s.emin <= ex <= s.emax):
+                    continue
+                ks = {I64MAX, I64MAX - 1, I64MIN, I64MIN + 1, 2 ** 62, -2 ** 62, I64MAX - ex, I64MAX - ex + 1, I64MAX - ex - 1, I64MIN - ex, I64MIN - ex - 1, I64MIN - ex + 1,
+                      rng.randrange(2 ** 62, 2 ** 63), -rng.randrange(2 ** 62, 2 ** 63)}
+                for k in sorted(ks):
+                    if I64MIN <= k <= I64MAX:
+                        lines.append("scale %s %s %d %s" % (s, m, k, a))
+    return lines
+
+
 def nat_special_pairs():
     """every ordered pair of the special FP64 / FP32 patterns x every native-compared operation"""
     p64 = [0, 1 << 63, 1, (1 << 63) | 1, 0x7ff0000000000000, 0xfff0000000000000, 0x7ff8000000000000, 0x7fefffffffffffff, 0xffefffffffffffff,
